@@ -8,7 +8,10 @@
 #include <memory>
 #include <csetjmp>
 #include <csignal>
+#include <smt2newcontext.h>
 using namespace opensmt;
+#include <smt2newparser.hh>      // generated: token numbers, YYSTYPE, YYLTYPE  (-I <build>/src/parsers/smt2new)
+int osmt_yylex(YYSTYPE * lvalp, YYLTYPE * llocp, void * scanner);
 static sigjmp_buf jb;
 static void onsig(int) { siglongjmp(jb, 1); }
 
@@ -36,6 +39,7 @@ static std::string mk(ArithLogic & logic, std::string const & s, bool & broken) 
 int main() {
     signal(SIGFPE, onsig);
     signal(SIGABRT, onsig);
+    signal(SIGSEGV, onsig);   // Logic::mkConst("/") dereferences args[0] of an empty argument list (PtStore::lookupSymbol)
     auto L = std::make_unique<Logics>();
     unsigned long count = 0;
     std::string line;
@@ -62,6 +66,34 @@ int main() {
             std::ostringstream fp;
             fp << q;
             o << q.get_str() << " ; " << L->lra.termToSMT2String(t) << " ; - ; " << fp.str() << " ; -";
+        } else if (cmd == "Q") {
+            auto sp = arg.find(' ');
+            std::string a = arg.substr(0, sp), b = arg.substr(sp + 1);
+            for (int uf = 0; uf < 2; uf++) {
+                try {
+                    ArithLogic logic{uf ? Logic_t::QF_UFLIA : Logic_t::QF_LIA};
+                    PTRef r = logic.mkEq(logic.mkConst(logic.getSort_int(), a.c_str()), logic.mkConst(logic.getSort_int(), b.c_str()));
+                    o << (uf ? " " : "") << (r == logic.getTerm_true() ? "true" : r == logic.getTerm_false() ? "false" : "term");
+                } catch (std::exception const &) { o << (uf ? " " : "") << "undef"; }
+            }
+        } else if (cmd == "T") {
+            // the token stream of the generated flex scanner (the rule for unexpected characters calls exit(1):
+            // only texts for which the model predicts no ERROR token are sent here)
+            std::string buf = arg;
+            Smt2newContext ctx(buf.data());
+            YYSTYPE lval;
+            YYLTYPE lloc;
+            bool first = true;
+            for (int guard = 0; guard < 100000; guard++) {
+                int t = osmt_yylex(&lval, &lloc, ctx.scanner);
+                if (t == 0) break;
+                char const * name = t == TK_NUM ? "NUM" : t == TK_DEC ? "DEC" : t == TK_HEX ? "HEX" : t == TK_BIN ? "BIN"
+                                  : t == TK_SYM ? "SYM" : t == TK_KEY ? "KEY" : t < 256 ? "CHAR" : "KWD";
+                o << (first ? "" : " ") << name << ":";
+                if (t < 256) o << char(t);
+                else if (t == TK_NUM || t == TK_DEC || t == TK_HEX || t == TK_BIN || t == TK_SYM || t == TK_KEY) { o << lval.str; free(lval.str); }
+                first = false;
+            }
         } else o << "bad";
         std::cout << o.str() << "\n";
     }
